@@ -20,26 +20,43 @@ use std::os::unix::io::{AsRawFd, RawFd};
 
 pub const HEADER_SIZE: usize = std::mem::size_of::<usize>();
 
+/// little-endian usize from/to 8 bytes with explicit byte operations (`copy_from_slice` is a
+/// memcpy for the model checker, after which constants are no longer recognised as constants)
+#[inline]
+fn rd_usize(b: &[u8]) -> usize {
+    (b[0] as usize) | (b[1] as usize) << 8 | (b[2] as usize) << 16 | (b[3] as usize) << 24
+        | (b[4] as usize) << 32 | (b[5] as usize) << 40 | (b[6] as usize) << 48 | (b[7] as usize) << 56
+}
+#[inline]
+fn wr_usize(b: &mut [u8], v: usize) {
+    b[0] = v as u8;
+    b[1] = (v >> 8) as u8;
+    b[2] = (v >> 16) as u8;
+    b[3] = (v >> 24) as u8;
+    b[4] = (v >> 32) as u8;
+    b[5] = (v >> 40) as u8;
+    b[6] = (v >> 48) as u8;
+    b[7] = (v >> 56) as u8;
+}
+
 pub mod verif {
     //! Verification-side state (not part of mmap-append's API).
+    //!
+    //! The file and its MAP_SHARED mapping are the *same* bytes (`DATA[CUR]`): a store into the
+    //! mapping is a store into the page cache, which survives a process kill.  A kill is
+    //! therefore modelled as "program-order effects numbered >= CRASH_AT never happen".
     #[cfg(kani)]
-    pub const FCAP: usize = 4608;
+    pub const FCAP: usize = 768;
     #[cfg(not(kani))]
     pub const FCAP: usize = 0;
     pub const NBUF: usize = 2;
 
-    pub struct ModelFile {
-        /// what is on "disk"
-        pub exists: bool,
-        pub len: usize,
-        pub data: [u8; FCAP],
-    }
+    /// file contents = mapping contents; a resize that moves the mapping switches to the next buffer
     #[cfg(kani)]
-    pub static mut FILE: ModelFile = ModelFile { exists: false, len: 0, data: [0; FCAP] };
-    /// mapping buffers (the process's view); `CUR` changes when a resize moves the mapping
-    #[cfg(kani)]
-    pub static mut MAPS: [[u8; FCAP]; NBUF] = [[0; FCAP]; NBUF];
+    pub static mut DATA: [[u8; FCAP]; NBUF] = [[0; FCAP]; NBUF];
     pub static mut CUR: usize = 0;
+    pub static mut EXISTS: bool = false;
+    pub static mut FILE_LEN: usize = 0;
     pub static mut MAP_LEN: usize = 0;
     /// crash injection: persistent effects numbered from 0; those >= CRASH_AT are dropped
     pub static mut STEP: u32 = 0;
@@ -55,27 +72,46 @@ pub mod verif {
         }
     }
     #[cfg(kani)]
-    pub fn file() -> &'static mut ModelFile {
-        unsafe { &mut *core::ptr::addr_of_mut!(FILE) }
+    pub fn data() -> &'static mut [u8; FCAP] {
+        unsafe { &mut (*core::ptr::addr_of_mut!(DATA))[CUR] }
     }
-    #[cfg(kani)]
-    pub fn map() -> &'static mut [u8; FCAP] {
-        unsafe { &mut (*core::ptr::addr_of_mut!(MAPS))[CUR] }
+    pub fn file_len() -> usize {
+        unsafe { FILE_LEN }
     }
-    /// model of File::set_len on the model file.  Invariant kept by the whole model: bytes of
-    /// `data` at or beyond `len` are zero, so growing (ftruncate zero-fills) needs no loop.
+    pub fn file_exists() -> bool {
+        unsafe { EXISTS }
+    }
+    /// harness set-up: an existing file of length `l` (contents are written through `data()`)
+    pub fn set_file(exists: bool, l: usize) {
+        unsafe {
+            EXISTS = exists;
+            FILE_LEN = l;
+        }
+    }
+    /// model of OpenOptions::open(create): creates an empty file if there is none
+    pub fn file_open_create() {
+        unsafe {
+            if !EXISTS && effect_allowed() {
+                EXISTS = true;
+                FILE_LEN = 0;
+            }
+        }
+    }
+    /// model of File::set_len.  Invariant kept by the whole model: bytes at or beyond the file
+    /// length are zero, so growing (ftruncate zero-fills) needs no loop.
     #[cfg(kani)]
     pub fn file_set_len(n: usize) -> bool {
         if n > FCAP {
             return false;
         }
-        let f = file();
-        if n < f.len {
-            panic!("mmap-append model limit: shrinking the file is not modelled");
-        }
-        if effect_allowed() {
-            f.len = n;
-            f.exists = true;
+        unsafe {
+            if n < FILE_LEN {
+                panic!("mmap-append model limit: shrinking the file is not modelled");
+            }
+            if effect_allowed() {
+                FILE_LEN = n;
+                EXISTS = true;
+            }
         }
         true
     }
@@ -102,21 +138,13 @@ impl MmapAppend {
         let fd = file.as_raw_desc().0;
         #[cfg(kani)]
         {
-            let f = verif::file();
-            let len = f.len;
+            let len = verif::file_len();
             if len < HEADER_SIZE {
                 return Err(io::Error::from(io::ErrorKind::Other));
             }
-            // map: the process sees the file contents
             verif::MAP_LEN = len;
-            let m = verif::map();
-            *m = f.data; // bytes beyond `len` are zero in both (model invariant)
-            if initialize {
-                let hdr = HEADER_SIZE.to_le_bytes();
-                m[0..HEADER_SIZE].copy_from_slice(&hdr);
-                if verif::effect_allowed() {
-                    f.data[0..HEADER_SIZE].copy_from_slice(&hdr);
-                }
+            if initialize && verif::effect_allowed() {
+                wr_usize(&mut verif::data()[..], HEADER_SIZE);
             }
             Ok(MmapAppend { fd })
         }
@@ -144,39 +172,36 @@ impl MmapAppend {
     {
         #[cfg(kani)]
         unsafe {
-            let m = verif::map();
+            let m = verif::data();
             let maplen = verif::MAP_LEN;
-            let mut e8 = [0u8; HEADER_SIZE];
-            e8.copy_from_slice(&m[0..HEADER_SIZE]);
-            let end = usize::from_le_bytes(e8);
+            let end = rd_usize(&m[..]);
             if end + max_len > maplen {
-                // payload-free error: the text comes from the Display stub of the harness prelude
-                return Err(io::Error::from(io::ErrorKind::Other));
+                // the same error value as the real crate (a boxed custom error: the bit-packed
+                // "simple" representation is an integer disguised as a pointer, which CBMC's
+                // pointer model cannot decode reliably in io::Error's drop glue)
+                return Err(io::Error::new(io::ErrorKind::Other, "Out of space"));
             }
             let len = writer(&mut m[end..end + max_len])?;
-            // the payload reaches the file in two halves (a kill can land mid-copy)
-            let f = verif::file();
+            // a kill can land before, in the middle of, or after the copy of the payload:
+            // the part that was not copied yet still holds what was there before (zeros)
             let half = len / 2;
-            if verif::effect_allowed() {
+            if !verif::effect_allowed() {
                 let mut i = 0;
                 while i < half {
-                    f.data[end + i] = m[end + i];
+                    m[end + i] = 0;
                     i += 1;
                 }
             }
-            if verif::effect_allowed() {
+            if !verif::effect_allowed() {
                 let mut i = half;
                 while i < len {
-                    f.data[end + i] = m[end + i];
+                    m[end + i] = 0;
                     i += 1;
                 }
             }
             // fence, then the marker
-            let newend = end + len;
-            let ne = newend.to_le_bytes();
-            m[0..HEADER_SIZE].copy_from_slice(&ne);
             if verif::effect_allowed() {
-                f.data[0..HEADER_SIZE].copy_from_slice(&ne);
+                wr_usize(&mut m[..], end + len);
             }
             Ok(end)
         }
@@ -207,17 +232,20 @@ impl MmapAppend {
             if new_len > verif::FCAP {
                 panic!("mmap-append model limit: mapping larger than the modelled file capacity");
             }
-            // the mapping now covers the (already enlarged) file; MAYMOVE: contents move to a fresh buffer
-            let f = verif::file();
-            let old = verif::CUR;
+            // mremap(MREMAP_MAYMOVE): the same file pages may now be mapped at a different address
             if !verif::RESIZE_IN_PLACE {
+                let old = verif::CUR;
                 if old + 1 >= verif::NBUF {
                     panic!("mmap-append model limit: more resizes than modelled buffers");
                 }
+                let used = rd_usize(&verif::data()[..]);
                 verif::CUR = old + 1;
-                let src = (*core::ptr::addr_of!(verif::MAPS))[old];
-                let dst = verif::map();
-                *dst = src; // bytes beyond the old mapping length are zero, as in the enlarged file
+                let mut i = 0;
+                while i < used {
+                    let b = (*core::ptr::addr_of!(verif::DATA))[old][i];
+                    verif::data()[i] = b;
+                    i += 1;
+                }
             }
             verif::MAP_LEN = new_len;
             Ok(())
@@ -238,10 +266,7 @@ impl MmapAppend {
     pub fn get_end(&self) -> usize {
         #[cfg(kani)]
         {
-            let m = verif::map();
-            let mut e8 = [0u8; HEADER_SIZE];
-            e8.copy_from_slice(&m[0..HEADER_SIZE]);
-            usize::from_le_bytes(e8)
+            rd_usize(&verif::data()[..])
         }
         #[cfg(not(kani))]
         {
@@ -268,7 +293,7 @@ impl Deref for MmapAppend {
         #[cfg(kani)]
         {
             let end = self.get_end();
-            let m: &'static [u8; verif::FCAP] = verif::map();
+            let m: &'static [u8; verif::FCAP] = verif::data();
             &m[..end]
         }
         #[cfg(not(kani))]
